@@ -11,7 +11,8 @@
    The schedule works on pairs (stage, index value).  All index arithmetic is in Z and mirrors
    the pass literally: the prologue uses the ABSOLUTE constants i-j, the loop starts at the
    ABSOLUTE constant S-1, the epilogue uses ub-(i-j+1): lb and step of the original loop are
-   not consulted (the code's own TODO), which is what the refutations exhibit.  *)
+   not consulted (the code's own TODO), which is what the refutations exhibit.  Which loops the
+   pass touches at all is decided by [recognised] (lb, step, and the scan of the loop body).  *)
 From Snax Require Import Base.Prelude Base.ListAux Model.MultiCore.
 
 Inductive operand := Fixed (b : Z) | Tile (b : Z) (stride : Z).
@@ -163,8 +164,44 @@ Definition phase_ops (p : pipe) (ds : list Z) (ph : phase) : list mop := flat_ma
 
 Definition nstages (p : pipe) : nat := length (p_stages p).
 
-(* ConstructPipeline's guard: constant lb 0, constant step 1, at least two stages *)
-Definition recognised (p : pipe) (lb st : Z) : bool := (lb =? 0) && (st =? 1) && (2 <=? nstages p)%nat.
+(* ------------------------------------------------------------------ the recogniser ----------
+   ConstructPipeline skips the leading index ops of the loop body and then scans the rest:
+     while the next op is a stage op (memref.copy / linalg.generic / streaming region):
+       add it to the current stage; if a snax.cluster_sync_op follows, close the stage and skip
+       the barrier; if the scf.yield follows, the pipeline is valid only when the current stage
+       is empty (the body ends with a barrier);
+     any other op ends the scan, and unless that op is the scf.yield there is no pipeline
+     (repo fix 3624df2; before it the pipeline was built from the stages seen so far and the
+     remaining ops stayed in the loop body, where they ran for the iterations of the shifted
+     steady-state loop only).
+   The body after the index ops is given as tokens; [scan cur n l] = number of stages of the
+   valid pipeline (cur: the current stage is non-empty, n: stages closed so far), None = the
+   pattern does not apply and the loop is left as it is. *)
+Inductive btok := TStage | TSync | TOther.
+
+Fixpoint scan (cur : bool) (n : nat) (l : list btok) : option nat :=
+  match l with
+  | [] => if cur then None else Some n
+  | TStage :: r =>
+      match r with
+      | TSync :: r' => scan false (S n) r'
+      | _ => scan true n r
+      end
+  | _ :: _ => None
+  end.
+
+(* ConstructPipeline's guard: constant lb 0, constant step 1, the body is exactly >= 2 stages each
+   closed by a barrier (and those are the stages of p) *)
+Definition recognised (p : pipe) (lb st : Z) (body : list btok) : bool :=
+  (lb =? 0) && (st =? 1) &&
+  match scan false 0 body with
+  | Some n => (2 <=? n)%nat && (n =? nstages p)%nat
+  | None => false
+  end.
+
+(* the body of a loop of the recognised shape with the given numbers (-1) of ops per stage *)
+Definition groups (gs : list nat) : list btok := flat_map (fun g => repeat TStage (S g) ++ [TSync]) gs.
+Definition clean_body (p : pipe) : list btok := groups (map (fun st => (length st - 1)%nat) (p_stages p)).
 
 (* the original loop (one barrier after every stage) and the unrolled one, as phases of op
    instances; the original uses no duplicate *)
